@@ -3,7 +3,8 @@
    Proofs/C16Proofs.v and followed by Print Assumptions.
 
    Two switches are data read from the code (Generated/Facts_C16.v): how _do_cmd links the raw subprocess
-   error to the CommandError it raises ([code_links]: "from err" leaks, "from None" does not), and whether
+   error to the CommandError it raises and whether the clean-up after a timeout can raise with the
+   TimeoutExpired as context ([code_links]: "from err" / unguarded leaks, "from None" + guarded does not), and whether
    _get_installation_token prints its headers ([token_flow_prints_headers]).  [C16_cmd] and [C16_headers]
    state, for the code as it is, the FULL statement when the switch is in the repaired position and
    "refuted + PARTIAL" when it is in the leaky one; the theorems around them cover both positions. *)
@@ -70,7 +71,8 @@ Theorem C16_cmd_leaky_refuted : forall lk, links_leaky lk = true -> ~ cmd_statem
 Proof. exact c16_cmd_refuted_when_leaky. Qed.
 Print Assumptions C16_cmd_leaky_refuted.
 
-(* PARTIAL, any position: everything except the headers of foreign exceptions in a rendered chain. *)
+(* PARTIAL, any position: everything except the headers of foreign exceptions in a rendered chain
+   (when the clean-up after a timeout is not guarded: for scripts in which it does not fail, [script_ok]). *)
 Theorem C16_cmd_partial : forall lk, cmd_partial lk.
 Proof. exact c16_cmd_partial_all. Qed.
 Print Assumptions C16_cmd_partial.
@@ -82,7 +84,7 @@ Print Assumptions C16_cmd.
 
 (* job.status and job.details, shown on the status page and by the API, in any position. *)
 Theorem C16_details : forall lk host pwd s j,
-  cmd_inputs host pwd s j -> j_links j = lk ->
+  cmd_inputs host pwd s j -> j_links j = lk -> script_ok lk (j_atts j) ->
   forall e, In e (job_emissions j) -> on_status_page e = true -> ~ shows s e.
 Proof. exact c16_details_final. Qed.
 Print Assumptions C16_details.
@@ -113,6 +115,20 @@ Theorem C16_headers_no_leak : forall g, g_prints g = false ->
   forall secret, no_leak [secret] (github_flow (with_secrets g "" "" "")) -> no_leak [secret] (github_flow g).
 Proof. exact c16_headers_no_leak. Qed.
 Print Assumptions C16_headers_no_leak.
+
+(* ---------------------------------------------------------------- the code as it is: FULL statements
+
+   These two only type-check while the switches read from the code are in the repaired position
+   (links "from None" + guarded clean-up, no print of the headers): they are the statements the check
+   stands on now that candidates F10 and F7 are repaired in /repo. *)
+
+Theorem C16_cmd_full : cmd_statement code_links.
+Proof. exact (c16_cmd_full_when_not_leaky code_links eq_refl). Qed.
+Print Assumptions C16_cmd_full.
+
+Theorem C16_headers_full : headers_statement token_flow_prints_headers.
+Proof. exact c16_headers_full. Qed.
+Print Assumptions C16_headers_full.
 
 (* ---------------------------------------------------------------- the monitor *)
 
